@@ -84,10 +84,11 @@ Record lst := mkL {
   l_closed : list res;     (* closed / cancelled so far *)
   l_opened : list res;     (* ever opened *)
   l_acts : list row;       (* goroutines that have not returned yet *)
-  l_rebinds : nat
+  l_rebinds : nat;
+  l_fatal : bool           (* a fatal reader error has been recorded (only the first one triggers the shutdown) *)
 }.
 
-Definition ready (c : cfg) : lst := mkL c SReady [] (opens c PMain) (spawn c PMain) 0.
+Definition ready (c : cfg) : lst := mkL c SReady [] (opens c PMain) (spawn c PMain) 0 false.
 
 Definition close (r : res) (l : list res) : list res := if has r l then l else r :: l.
 
@@ -104,7 +105,7 @@ Inductive op :=
 | OFatal.                (* a reader reported an unexpected error: onFatal -> triggerShutdown -> go Stop *)
 
 Definition set_state (s : lst) (st : cstate) (closed : list res) : lst :=
-  mkL (l_cfg s) st closed (l_opened s) (l_acts s) (l_rebinds s).
+  mkL (l_cfg s) st closed (l_opened s) (l_acts s) (l_rebinds s) (l_fatal s).
 
 Definition do_stop_begin (s : lst) : lst :=
   match l_state s with
@@ -124,7 +125,7 @@ Definition step (s : lst) (o : op) : lst :=
     match l_state s with
     | SReady =>
       if ok then mkL (l_cfg s) SStarted (l_closed s) (l_opened s ++ opens (l_cfg s) PStart)
-                     (l_acts s ++ spawn (l_cfg s) PStart) (l_rebinds s)
+                     (l_acts s ++ spawn (l_cfg s) PStart) (l_rebinds s) (l_fatal s)
       else set_state s SStopped (iface_close (close RCtx (l_closed s)))
     | _ => s
     end
@@ -136,14 +137,17 @@ Definition step (s : lst) (o : op) : lst :=
   | OStopEnd => do_stop_end s
   | ORebind =>
     match l_state s with
-    | SStarted => mkL (l_cfg s) (l_state s) (l_closed s) (l_opened s) (l_acts s) (S (l_rebinds s))
+    | SStarted => mkL (l_cfg s) (l_state s) (l_closed s) (l_opened s) (l_acts s) (S (l_rebinds s)) (l_fatal s)
     | _ => s
     end
   | OFatal =>
-    match l_state s with
-    | SStarted => do_stop_end (do_stop_begin s)     (* triggerShutdown is set by Start only *)
-    | _ => s
-    end
+    if l_fatal s then s
+    else
+      let s1 := mkL (l_cfg s) (l_state s) (l_closed s) (l_opened s) (l_acts s) (l_rebinds s) true in
+      match l_state s with
+      | SStarted => do_stop_end (do_stop_begin s1)     (* triggerShutdown is set by Start only *)
+      | _ => s1
+      end
   end.
 
 Fixpoint run (s : lst) (ops : list op) : lst :=
@@ -163,7 +167,7 @@ Fixpoint sweep (closed : list res) (l : list row) : list row * list res :=
 Definition settle (s : lst) : lst :=
   let '(a1, c1) := sweep (l_closed s) (l_acts s) in
   let '(a2, c2) := sweep c1 a1 in
-  mkL (l_cfg s) (l_state s) c2 (l_opened s) a2 (l_rebinds s).
+  mkL (l_cfg s) (l_state s) c2 (l_opened s) a2 (l_rebinds s) (l_fatal s).
 
 Definition all_closed (s : lst) : bool := forallb (fun r => has r (l_closed s)) (l_opened s).
 
